@@ -359,6 +359,10 @@ func c13mReport(out *vlib.Out, res *c13mResult, verbose bool) (harness string) {
 			out.Count("main:event:" + ev[:1])
 		}
 	}
+	for _, c := range res.Cases {
+		out.Case(c[0], c[1], strings.HasPrefix(c[1], "ok:"))
+		out.Count("main:case:" + strings.Split(c[0], "|")[5])
+	}
 	for _, v := range res.Verdicts {
 		what := v.What
 		if res.Dump != "" && strings.HasPrefix(v.Sig, "C13:deadlock") {
